@@ -331,6 +331,9 @@ func callExpand(c *expCase, cc *concrete, docBytes map[string][]byte, ld *recLoa
 		if err := json.Unmarshal(rootSrc, &sw); err != nil {
 			return fail("harness-error", "root does not decode: "+err.Error())
 		}
+		if strings.Contains(c.Flags, "handbuilt") {
+			handBuilt(&sw)
+		}
 		opts := mkOpts()
 		if c.Entry == "SkipThenFull" {
 			opts.SkipSchemas = true
@@ -576,4 +579,82 @@ func callExpand(c *expCase, cc *concrete, docBytes map[string][]byte, ld *recLoa
 	}
 	res.out, res.outcome = b, "ok"
 	return res
+}
+
+// handBuilt turns a decoded document into what a program assembling the model by hand may hold: the boolean-or-schema
+// unions carry their schema with the Allows flag left at its zero value (&SchemaOrBool{Schema: s}).
+func handBuilt(sw *spec.Swagger) {
+	var walk func(s *spec.Schema)
+	walk = func(s *spec.Schema) {
+		if s == nil {
+			return
+		}
+		for _, u := range []*spec.SchemaOrBool{s.AdditionalProperties, s.AdditionalItems} {
+			if u != nil && u.Schema != nil {
+				u.Allows = false
+				walk(u.Schema)
+			}
+		}
+		if s.Items != nil {
+			walk(s.Items.Schema)
+			for i := range s.Items.Schemas {
+				walk(&s.Items.Schemas[i])
+			}
+		}
+		walk(s.Not)
+		for _, l := range [][]spec.Schema{s.AllOf, s.AnyOf, s.OneOf} {
+			for i := range l {
+				walk(&l[i])
+			}
+		}
+		for _, m := range []map[string]spec.Schema{s.Properties, s.PatternProperties, s.Definitions} {
+			for k, v := range m {
+				v := v
+				walk(&v)
+				m[k] = v
+			}
+		}
+		for k, d := range s.Dependencies {
+			if d.Schema != nil {
+				walk(d.Schema)
+				s.Dependencies[k] = d
+			}
+		}
+	}
+	for k, v := range sw.Definitions {
+		v := v
+		walk(&v)
+		sw.Definitions[k] = v
+	}
+	for k, p := range sw.Parameters {
+		walk(p.Schema)
+		sw.Parameters[k] = p
+	}
+	for k, r := range sw.Responses {
+		walk(r.Schema)
+		sw.Responses[k] = r
+	}
+	if sw.Paths != nil {
+		for _, pi := range sw.Paths.Paths {
+			for i := range pi.Parameters {
+				walk(pi.Parameters[i].Schema)
+			}
+			for _, op := range []*spec.Operation{pi.Get, pi.Put, pi.Post, pi.Delete, pi.Options, pi.Head, pi.Patch} {
+				if op == nil {
+					continue
+				}
+				for i := range op.Parameters {
+					walk(op.Parameters[i].Schema)
+				}
+				if op.Responses != nil {
+					if op.Responses.Default != nil {
+						walk(op.Responses.Default.Schema)
+					}
+					for _, r := range op.Responses.StatusCodeResponses {
+						walk(r.Schema)
+					}
+				}
+			}
+		}
+	}
 }
